@@ -256,6 +256,7 @@ impl Module for RecDistr {
         let payload = match &msg {
             DistributionMsg::SetWithdrawAddress { address } => format!("set_withdraw:{}", address),
             DistributionMsg::WithdrawDelegatorReward { validator } => format!("withdraw:{}", validator),
+            DistributionMsg::FundCommunityPool { amount } => format!("fund_pool:{}", cs(amount)),
             other => format!("{:?}", other),
         };
         if self.world.module_call("distribution", sender.as_str(), payload) {
